@@ -2,9 +2,9 @@ SPECIFICATION Spec
 CONSTANTS
   MaxOps = 5
   MaxTimers = 2
-  AddOffsets <- AddOffs
-  RunOffsets <- RunOffsSmall
-  Kinds <- AllKinds
+  AddOffsets <- AddOffsDeep
+  RunOffsets <- RunOffsDeep
+  Kinds <- MaxOnly
   ClampModMin = TRUE
 INVARIANT NoViolation WindowInv SlotInv
 VIEW View
